@@ -14,7 +14,13 @@ import (
 )
 
 // tryReplay replays a counterexample against the real code when a driver exists for the obligation.
-func tryReplay(e *Engine, prop string, v *Verdict) map[string]any {
+func tryReplay(e *Engine, prop string, v *Verdict) (rep map[string]any) {
+	// a problem inside the replay driver must never change the verdict: the violation is reported either way
+	defer func() {
+		if r := recover(); r != nil {
+			rep = map[string]any{"reproduced": false, "reason": fmt.Sprintf("replay driver failed: %v", r)}
+		}
+	}()
 	if os.Getenv("VERIF_NO_REPLAY") == "" {
 		if rep := replayValues(e, prop, v); rep != nil {
 			return rep
